@@ -3,6 +3,12 @@
 # `meson setup` runs (same absolute paths) must give byte-identical generated text; a build dir configured under
 # one seed and reconfigured under another must equal the fresh result; a no-op reconfigure must keep build.ninja's
 # content and must not touch configure-time outputs whose content is unchanged.
+# History also covers a fresh build directory that already holds the empty directories an earlier configuration left.
+# Build-directory placement family: the build directory as a sibling of the sources, nested in them, nested two levels
+# (thorough: elsewhere) x directories named absolutely / relatively x {fresh, reconfigured, reconfigured again, wiped},
+# for a project holding the whole grid of ways in which configuration creates a file in the build directory and names it
+# again (lib/verif/c06lib.py); run outside /dev, because meson treats any path starting with '/dev/' as a device.
+# Machine-file family: --native-file / --cross-file given as a regular file or through a pipe.
 import glob, hashlib, itertools, json, os, shutil, sys
 from verif.core import Check, pmap, run_main, scratch_root, REPO, NCPU
 from verif import projgen as pg
